@@ -161,6 +161,47 @@ def run(res, proof):
         if before != after:
             res.violation('view-aliases-object', {'object': repr(o)}, 'object changed after mutating handed-out views', 'views are copies')
         res.count('aliasing_checked')
+    # ---- equal objects of the SAME class: an object kept across clear_singletons() and the object built again afterwards
+    # (both alive, same canonical form, different identity): every coherence law applies to them as well
+    from dsdobjects import clear_singletons
+    def rebuild(o, kind):
+        K = type(o)
+        if kind == 'dom':
+            return K(o.name, length=o.length)
+        if kind == 'cplx':
+            return K(list(o.sequence), list(o.structure), name=o.name)
+        if kind == 'strand':
+            return K(list(o.sequence), name=o.name)
+        if kind == 'macro':
+            return K(list(o.complexes), name=o.name)
+        return K(list(o.reactants), list(o.products), o.rtype)
+    for kind in ('rxn', 'macro', 'strand', 'cplx', 'dom'):
+        olds = [iw.held[h] for h in groups[kind][:10]]
+        for K in {type(o) for o in olds}:
+            clear_singletons(K)
+        twins = []
+        for o in olds:
+            try:
+                t = rebuild(o, kind)
+            except Exception as e:
+                e = None
+                continue
+            if t is not o:
+                twins.append((o, t))
+        for o, t in twins:
+            res.evaluations += 1
+            cf = (lambda q: (q.name, q.length)) if kind == 'dom' else (lambda q: q.canonical_form)
+            desc = {'pair': [repr(o), repr(t), type(o).__name__, 'the same request after clear_singletons()']}
+            if cf(o) == cf(t):
+                if not (o == t) or (o != t) or hash(o) != hash(t) or not (o <= t and o >= t) or o < t or o > t or len({o, t}) != 1:
+                    res.violation('stale-twin-not-equal:' + kind, desc, '==: %s, !=: %s, hashes equal: %s, set size %d' % (o == t, o != t, hash(o) == hash(t), len({o, t})),
+                                  'equal canonical forms: ==, equal hashes, equivalent in the order, one set element')
+                for (p, q) in twins:
+                    if (o == p) != (t == q) and cf(p) == cf(q):
+                        res.violation('stale-twin-eq-not-transitive:' + kind, desc, 'o == p is %s but twin == twin is %s' % (o == p, t == q), 'the same answers')
+                        break
+        res.count('stale_twins_' + kind, len(twins))
+        del olds, twins
     for l in hl[:8]:
         res.sample(l)
     res.rule = ('populations: 34 domains (incl. numbered / mixed names and other lengths in other registries), %d complexes (incl. pairs differing only in structure and copies in a subclass registry), %d '
